@@ -12,8 +12,8 @@ RULE = ("simulated scenes that satisfy the premise by construction (asserted per
 ASSUMPTIONS = ["all keypoints visible (the premise is about separation and motion)", "a fresh Tracker per history",
                "absence length counted in non-empty frames (the tracker's fixed window only ages on tracked frames)"]
 SHARDS = {"quick": 4, "thorough": 16}
-N = {"quick": 2600, "thorough": 180000}
-BUDGET = {"quick": 110, "thorough": 1500}
+N = {"quick": 5200, "thorough": 900000}
+BUDGET = {"quick": 110, "thorough": 600}
 TIMEOUT = {"quick": 600, "thorough": 3000}
 SELF_SHARDED = True
 CONFIGS = list(tc.all_configs())
